@@ -9,7 +9,7 @@ TWO_PI = 2 * np.pi
 
 RULE = ("Cases: (stat) label vectors with K<=12 cycles of length 1..20 and -1 gaps anywhere (labels time-ordered, permuted, or re-appearing non-contiguously) x float values x "
         "funcs {mean,max,sum,len,first,range} x value dtype {float,int,bool} x out in {None,'samples'} x cycles given as vector / column; "
-        "(align) monotone wrapped phases of 2-8 whole cycles of 8..400 samples x quantity g_c(phase) "
+        "(stat_object) the same through a Cycles object in cycle and augmented mode, both outputs; (align) monotone wrapped phases of 2-8 whole cycles of 8..400 samples x quantity g_c(phase) "
         "(linear, sin, cos2, cubic polynomial; optionally a different affine transform per cycle) x npoints "
         "2..64 x interp_kind in {linear,quadratic,cubic} x cycles from the phase / explicit vector / Cycles "
         "object / a shifted labelling whose cycles contain the phase wrap; (bin) phases in [0,2pi) x nbins 2..64 (or the caller's non-uniform bin_edges) x 1-3 value columns x optional weights. Oracle: direct per-label "
@@ -298,7 +298,63 @@ def oracle_bin(case, rec):
     return counts[-1] > 0
 
 
+@st.composite
+def stat_object_case(draw):
+    ip, lens = draw(gens.monotone_cycles_phase(2, 8, 4, 40, total_max=300))
+    return {'ip': ip, 'lens': lens, 'k': draw(st.integers(0, 2**32 - 1)), 'func': draw(st.sampled_from(['mean', 'max', 'sum', 'len', 'first'])),
+            'mode': draw(st.sampled_from(['cycle', 'augmented'])), 'out': draw(st.sampled_from([None, 'samples']))}
+
+
+def oracle_stat_object(case, rec):
+    """get_cycle_stat driven with a Cycles object: per-cycle statistic over the cycle (or, in augmented mode, over the cycle
+    plus the run of samples back to the closest trough of the previous one); the projection back to samples is constant
+    within each cycle's own samples and missing elsewhere."""
+    import emd
+    ip = np.asarray(case['ip'], dtype=float)
+    lens = case['lens']
+    bounds = np.r_[0, np.cumsum(lens)]
+    vals = np.round(np.random.default_rng(case['k']).standard_normal(ip.size) * 5, 3)
+    func = FUNCS[case['func']]
+    try:
+        C = emd.cycles.Cycles(ip.copy())
+        got = np.asarray(emd.cycles.get_cycle_stat(C, vals.copy(), mode=case['mode'], out=case['out'], func=func), dtype=float)
+    except Exception as e:
+        raise Violation('C14/get_cycle_stat/Cycles-object/raises/%s/%s' % (type(e).__name__, case['mode']), repr(e))
+    stat = []
+    for c in range(len(lens)):
+        a, b = bounds[c], bounds[c + 1]
+        if case['mode'] == 'cycle':
+            stat.append(float(func(vals[a:b])))
+        elif c == 0:
+            stat.append(np.nan)
+        else:
+            s0 = a
+            while s0 > 0 and ip[s0 - 1] >= 1.5 * np.pi:
+                s0 -= 1
+            if np.any(np.abs(ip[bounds[c - 1]:a] - 1.5 * np.pi) < 1e-12):
+                raise Discard('a phase sample exactly on the trough level')
+            stat.append(float(func(vals[s0:b])))
+    stat = np.array(stat)
+    if case['out'] is None:
+        exp = stat
+    else:
+        exp = np.full(ip.size, np.nan)
+        for c in range(len(lens)):
+            exp[bounds[c]:bounds[c + 1]] = stat[c]
+    if got.size == exp.size:
+        got = got.reshape(exp.shape)       # the projection may come back as a column; the property fixes values, not layout
+    if got.shape != exp.shape or not np.array_equal(np.isnan(got), np.isnan(exp)) or \
+            not np.allclose(got[~np.isnan(exp)], exp[~np.isnan(exp)], rtol=1e-12, atol=1e-12):
+        raise Violation('C14/get_cycle_stat/Cycles-object/value/mode=%s/out=%s' % (case['mode'], case['out']),
+                        'got %r expected %r' % (got.tolist()[:16], exp.tolist()[:16]))
+    rec.cls('mode=' + case['mode'])
+    rec.cls('out=%s' % case['out'])
+    return len(set(lens)) >= 2
+
+
 CLAUSES = [
+    Clause('C14.stat_object', oracle_stat_object, strategy=stat_object_case(), quick=1200, thorough=30000, shards=(4, 16),
+           nt_rule='>=2 cycles of different length'),
     Clause('C14.stat', oracle_stat, strategy=stat_case(), quick=4000, thorough=80000, shards=(4, 16),
            nt_rule='>=2 cycles of different length'),
     Clause('C14.align', oracle_align, strategy=align_case(), quick=1600, thorough=30000, shards=(8, 16),
